@@ -146,6 +146,17 @@ func (g *genCtx) txn() TxnSpec {
 		default:
 			rs.Kind = RefSym
 			rs.Target = g.names[r.Intn(len(g.names))]
+			// long symbolic targets (records near the room left in a block),
+			// as long as the record still fits the smallest block of the run
+			if r.Bool(0.35) && g.cfg.BlockSize != 128 {
+				max := 150
+				if g.cfg.BlockSize == 256 {
+					max = 60
+				}
+				if len(rs.Name) < 60 {
+					rs.TargetLen = 30 + r.Intn(max-29)
+				}
+			}
 		}
 		if g.p.SharedOids > 0 && r.Bool(0.7) {
 			rs.OidTag = 1 + r.Intn(g.p.SharedOids)
